@@ -1,13 +1,14 @@
 (** C13 — evaluation of implementation traces: correspondence (model vs observed) and the schedule
     predicate [Pb_trace] on the observed trace itself. *)
-From Coq Require Import ZArith List Bool.
+From Coq Require Import String ZArith List Bool.
 Import ListNotations.
 Require Import Nib.Lib.Dec Nib.C13.Model Nib.C13.Spec.
 Local Open Scope Z_scope.
 
 Record case := {
   c_zp : bool;                   (* probe: does a positive provision below one unibi panic on this tree? *)
-  c_init : st;                   (* params, counters (None = never written) and module balance at the start (observed) *)
+  c_blocked : list string;       (* probe: module accounts the application's bank keeper refuses as recipients (BlockedAddr) *)
+  c_init : st;                   (* params, counters (None = never written), module balance and sudo root at the start (observed) *)
   c_tr : list (op * out)         (* ops with the observed effect of each *)
 }.
 
@@ -24,7 +25,7 @@ Fixpoint outs_eqb (a b : list out) : bool :=
   end.
 
 Definition mismatch (c : case) : bool :=
-  negb (outs_eqb (snd (run (c_zp c) (c_init c) (map fst (c_tr c)))) (map snd (c_tr c))).
+  negb (outs_eqb (snd (run (c_blocked c) (c_zp c) (c_init c) (map fst (c_tr c)))) (map snd (c_tr c))).
 
 (* ---- the precondition under which the schedule is claimed (boolean forms of Spec.Consistent / hist_ok) *)
 
@@ -54,6 +55,7 @@ Fixpoint hist_okb (E M : Z) (p : params) (c e : Z) (ops : list op) : bool :=
           (e' =? e) && (0 <=? e) && (e <? two62) && (implb (p_enabled p) (prov_okb p c && dist_okb p)) &&
           hist_okb E M p (if p_enabled p then c + 1 else c) (e + 1) r
       | Fund _ => false
+      | ChangeRoot auth rt => implb auth (operable rt) && (p_epp p =? E) && (p_max p =? M) && hist_okb E M p c e r
       | _ =>
           let p' := next_params p o in
           (p_epp p' =? E) && (p_max p' =? M) && hist_okb E M p' c e r
@@ -69,7 +71,7 @@ Definition pre (c : case) : bool :=
   match first_day ops with
   | None => false
   | Some e =>
-      consistentb s e && (s_module s =? 0) && smallb (p_epp p) (p_max p) && (0 <=? peek (s_skipped s)) &&
+      operable (s_root s) && consistentb s e && (s_module s =? 0) && smallb (p_epp p) (p_max p) && (0 <=? peek (s_skipped s)) &&
       hist_okb (p_epp p) (p_max p) p (n_of s e - 1) e ops
   end.
 
@@ -81,8 +83,12 @@ Definition start_q (c : case) : sst :=
 Definition funds_ok (c : case) : bool :=
   (0 <=? s_module (c_init c)) && forallb (fun x => match fst x with Fund a => 0 <=? a | _ => true end) (c_tr c).
 
-(** the schedule where it is claimed ([pre]); the distribution and the integer roll-over on EVERY trace *)
+(** the schedule where it is claimed ([pre]: in particular the sudo root is an operable account — an ordinary one or
+    governance — throughout); the distribution and the integer roll-over on EVERY trace, at every day-epoch end at which
+    the sudo root is an operable account.  None of the three looks at [c_blocked]: a tree whose bank refuses an
+    operable root is a violation. *)
 Definition violates (c : case) : bool :=
   (pre c && negb (Pb_trace (start_q c) (c_tr c))) ||
-  (funds_ok c && negb (Pb_dist (s_params (c_init c)) (s_module (c_init c)) (c_tr c))) ||
-  negb (Pb_roll (s_params (c_init c)) (s_module (c_init c)) (peek (s_period (c_init c))) (peek (s_skipped (c_init c))) (c_tr c)).
+  (funds_ok c && negb (Pb_dist (s_params (c_init c)) (s_root (c_init c)) (s_module (c_init c)) (c_tr c))) ||
+  negb (Pb_roll (s_params (c_init c)) (s_root (c_init c)) (s_module (c_init c)) (peek (s_period (c_init c)))
+          (peek (s_skipped (c_init c))) (c_tr c)).
